@@ -594,6 +594,7 @@ class Tr6(Tr):
             return (f"{pad}match CR.Py06.lfindSome ({it}) (fun {x} => if {c} then some {r} else none) with\n"
                     f"{pad}| some {got} => {self.ret_kw()}{got}\n{pad}| none =>\n" + self.blk(rest, ind + 1, k))
         accs = [a for a in self.assigned(body) if a != "?" and a in self.defined]
+        accs = [a for a in self.t.state if a in accs] + sorted(a for a in accs if a not in self.t.state)   # canonical order
         if "?" in self.assigned(body) or not accs:
             raise Unsupported("loop without a recognisable accumulator")
         brk = False
@@ -864,7 +865,7 @@ def targets():
         tcalls={"is_real_number_vector": ("true", False), "np.greater_equal": ("decide ({0} ≥ {1})", False),
                 "np.linalg.norm": ("(norm {0})", False)},
         pts=["point", "self._center"], doc="`norm` is np.linalg.norm on 2-vectors (a parameter: the non-negative root)"))
-    CIRC = "CR.Py06.CircObj"
+    CIRC = "CR.ShapeObj.CircObj"
     CA = {("self", "_radius"): "self.radius", ("self", "_center"): "self.center", ("self", "_shapely_circle"): "self.shapely"}
     CF = {("self", "_radius"): "radius", ("self", "_center"): "center", ("self", "_shapely_circle"): ("shapely", "(some {v})")}
     CS = {"self._update_shapely_circle": dict(fn="Circle_update_shapely_circle", ret=False, monadic=False, params=[])}
@@ -881,7 +882,7 @@ def targets():
                    init_state="⟨0, ⟨0, 0⟩, none⟩", setters={("self", "radius"): "Circle_set_radius", ("self", "center"): "Circle_set_center"},
                    epat={"center if center is not None else np.array([0.0, 0.0])": "(center.getD ⟨0, 0⟩)"},
                    doc="constructor: `_shapely_circle = None`, the two property setters, then the export is built"))
-    RECT = "CR.Py06.RectObj"
+    RECT = "CR.ShapeObj.RectObj"
     RA = {("self", "_length"): "self.length", ("self", "_width"): "self.width", ("self", "_center"): "self.center",
           ("self", "_orientation"): "self.orientation", ("self", "_vertices"): "self.vertices", ("self", "__shapely_polygon"): "self.polygon"}
     RF = {("self", "_length"): "length", ("self", "_width"): "width", ("self", "_center"): "center", ("self", "_orientation"): "orientation",
@@ -918,22 +919,22 @@ def targets():
                    doc="`ptIn ring p` is shapely's polygon.intersects(Point(p)); returns (object afterwards, answer)"))
     ts.append(T6(
         "Polygon_set_vertices", SHP, "vertices", "Polygon", [("vertices", "vertices : List CR.Geom.Pt")], None,
-        setter=True, state={"self": "CR.Py06.PolyShape"}, ret_state="self", init_state="⟨⟨0, 0⟩, ⟨0, 0⟩, []⟩",
+        setter=True, state={"self": "CR.ShapeObj.PolyShape"}, ret_state="self", init_state="⟨⟨0, 0⟩, ⟨0, 0⟩, []⟩",
         fields={("self", "_min"): "min", ("self", "_max"): "max", ("self", "_shapely_polygon"): "ring"}, ignore_attrs=["_vertices"],
-        tcalls={"np.min": ("(CR.Py06.colMin {0})", False, {"axis": "0"}), "np.max": ("(CR.Py06.colMax {0})", False, {"axis": "0"}),
+        tcalls={"np.min": ("(CR.ShapeObj.colMin {0})", False, {"axis": "0"}), "np.max": ("(CR.ShapeObj.colMax {0})", False, {"axis": "0"}),
                 "shapely.geometry.Polygon": ("{0}", False)},
         doc="the vertices setter (run by the constructor): bounding box and shapely polygon; `_vertices` (the re-oriented export) "
             "is not read by the containment test"))
     ts.append(T6(
         "Polygon_contains_point", SHP, "contains_point", "Polygon",
-        [(None, "ptIn : List CR.Geom.Pt → CR.Geom.Pt → Bool"), ("self", "self : CR.Py06.PolyShape"), ("point", "point : CR.Geom.Pt")], "Bool",
+        [(None, "ptIn : List CR.Geom.Pt → CR.Geom.Pt → Bool"), ("self", "self : CR.ShapeObj.PolyShape"), ("point", "point : CR.Geom.Pt")], "Bool",
         attrs={("self", "_min"): "self.min", ("self", "_max"): "self.max", ("self", "_shapely_polygon"): "self.ring"},
         tcalls={"is_real_number_vector": ("true", False), "np.less_equal": ("(CR.Py06.lessEqual {0} {1})", False),
                 "np.less": ("(CR.Py06.less {0} {1})", False), "all": ("(CR.Py06.all {0})", False),
                 "shapely.geometry.Point": ("{0}", False), "*.intersects": ("(ptIn {recv} {0})", False)},
         nested={"in_axis_aligned_bounding_box": T6(
             "in_axis_aligned_bounding_box", SHP, "in_axis_aligned_bounding_box", None,
-            [(None, "self : CR.Py06.PolyShape"), ("point", "point : CR.Geom.Pt")], "Bool", closure=["self"],
+            [(None, "self : CR.ShapeObj.PolyShape"), ("point", "point : CR.Geom.Pt")], "Bool", closure=["self"],
             attrs={("self", "_min"): "self.min", ("self", "_max"): "self.max"},
             tcalls={"np.less_equal": ("(CR.Py06.lessEqual {0} {1})", False), "np.less": ("(CR.Py06.less {0} {1})", False),
                     "all": ("(CR.Py06.all {0})", False)})},
